@@ -439,10 +439,14 @@ func (w *World) Preload(t *tor.Torrent, spec *TorSpec, pieces []int) {
 // when no goroutine can run.
 func (w *World) Quiet() bool {
 	for _, c := range w.Conns {
-		if c.Closed() {
-			continue
+		// what the system wrote is still delivered after it closed its end
+		if c.PeerPending() > 0 && !c.PeerClosed() {
+			return false
 		}
-		if c.Pending() > 0 || c.PeerPending() > 0 {
+		if c.Closed() {
+			continue // nobody will read what is pending for the system
+		}
+		if c.Pending() > 0 {
 			return false
 		}
 	}
@@ -475,6 +479,13 @@ func (w *World) AwaitQuiet(maxWait time.Duration) bool {
 	if ok {
 		w.Epoch++
 		simrt.Probe("quiescent-point")
+		if w.rc.S.LogOn() {
+			d := ""
+			for i, c := range w.Conns {
+				d += fmt.Sprintf(" c%d[%v closed=%v in=%d out=%d]", i, c.RemoteAddr(), c.Closed(), c.Pending(), c.PeerPending())
+			}
+			w.rc.S.Logf("quiescent point: epoch %d%s", w.Epoch, d)
+		}
 	}
 	return ok
 }
